@@ -58,6 +58,16 @@ func issued14(s, p *x509.Certificate) int {
 		return v
 	}
 	v := rt.Choose("issued."+key, 3)
+	// lemma C03.L4 (names): without an error the answer is true exactly when the issuer's subject is the subject's issuer
+	// name, byte for byte — part of the summary's post-condition, so that code which looks at the names itself before or
+	// instead of asking (a fast path that skips the signature check of a certificate that is not self-issued) agrees
+	// with the reference (behaviour-preserving change B3).
+	switch v {
+	case 0:
+		rt.Assume(rt.BytesEq(p.RawSubject, s.RawIssuer))
+	case 1:
+		rt.Assume(rt.Not(rt.BytesEq(p.RawSubject, s.RawIssuer)))
+	}
 	issuedMemo14[key] = v
 	return v
 }
